@@ -21,7 +21,9 @@ INFO_MATCH = ['info.SectionInfo.isAllowedName', 'info.SectionInfo.allowUnnamed',
               'info.AbstractType.hassubtype', 'info.SectionType.__len__', 'info.SectionType.__getitem__',
               'info.ValueInfo.__init__', 'info.ValueInfo.convert']
 MATCHER = ['matcher.BaseMatcher.__init__', 'matcher.BaseMatcher.addValue', 'matcher.BaseMatcher.addSection',
-           'matcher.SectionMatcher.__init__', 'matcher.BaseMatcher.createChildMatcher']
+           'matcher.SectionMatcher.__init__', 'matcher.BaseMatcher.createChildMatcher',
+           'matcher.BaseMatcher.createValue', 'matcher.SectionMatcher.createValue', 'matcher.SectionValue.__init__',
+           'info.KeyInfo.getdefault', 'info.MultiKeyInfo.getdefault', 'info.SectionInfo.getdefault']
 
 PROPS = {
     'C01': {'functions': INFO_MATCH + MATCHER, 'standin': True},
